@@ -8,6 +8,7 @@ package main
 // truncate the output of every program that uses it. Calibration never produces a verdict.
 
 import (
+	"fmt"
 	"math/rand"
 	"sort"
 	"strings"
@@ -20,18 +21,22 @@ import (
 type calibration struct {
 	sink         map[string]bool // kind + "/" + sink -> usable
 	mod          map[string]bool
+	modSimple    map[string]bool // usable only when touched once (K=1, V=0)
 	droppedSinks []string
 	droppedMods  []string
+	simpleMods   []string // touched once only: a repeated / nested touch does not run to completion
 }
 
 func (c *calibration) sinkOK(kind, sink string) bool { return c.sink[kind+"/"+sink] }
 func (c *calibration) modOK(name string) bool        { return c.mod[name] }
+func (c *calibration) modMulti(name string) bool     { return c.mod[name] && !c.modSimple[name] }
 
 func calibrate() *calibration {
-	c := &calibration{sink: map[string]bool{}, mod: map[string]bool{}}
+	c := &calibration{sink: map[string]bool{}, mod: map[string]bool{}, modSimple: map[string]bool{}}
 	type job struct {
 		kind, sink, mod string
 		path            string
+		spec            touchSpec
 	}
 	var jobs []job
 	for _, kind := range containerKinds {
@@ -51,11 +56,17 @@ func calibrate() *calibration {
 			jobs = append(jobs, job{kind: k, sink: sn, path: writeProg("cal", "sink_"+k+"_"+strings.ReplaceAll(sn, ".", "_"), op.src)})
 		}
 	}
-	incPath := writeProg("cal", "c20_inc", incFileSource)
-	mods := stateModules(incPath)
+	var incPaths []string
+	for j := 1; j <= 4; j++ {
+		incPaths = append(incPaths, writeProg("cal", "c20_inc"+sfx(j), incFileSource(j)))
+	}
+	mods := stateModules(incPaths)
 	for _, m := range mods {
-		sp := buildStateProgram(mods, "CAL", map[string]bool{m.name: true}, func(string) bool { return true })
-		jobs = append(jobs, job{mod: m.name, path: writeProg("cal", "mod_"+m.name, sp.src)})
+		// once, and the two most involved shapes of a repeated / nested touch
+		for _, spec := range []touchSpec{{1, 0}, {4, 1}, {3, 2}} {
+			sp := buildStateProgram(mods, "CAL", map[string]touchSpec{m.name: spec}, func(string) bool { return true })
+			jobs = append(jobs, job{mod: m.name, spec: spec, path: writeProg("cal", fmt.Sprintf("mod_%s_%d_%d", m.name, spec.K, spec.V), sp.src)})
+		}
 	}
 	isTail := map[string]bool{}
 	for _, m := range mods {
@@ -95,12 +106,18 @@ func calibrate() *calibration {
 				}
 			}
 		}
-		c.mod[j.mod] = ok
-		if !ok {
-			c.droppedMods = append(c.droppedMods, j.mod)
+		if j.spec.K == 1 {
+			c.mod[j.mod] = ok
+			if !ok {
+				c.droppedMods = append(c.droppedMods, j.mod)
+			}
+		} else if !ok && !c.modSimple[j.mod] {
+			c.modSimple[j.mod] = true
+			c.simpleMods = append(c.simpleMods, j.mod)
 		}
 	})
 	sort.Strings(c.droppedSinks)
 	sort.Strings(c.droppedMods)
+	sort.Strings(c.simpleMods)
 	return c
 }
